@@ -298,7 +298,7 @@ fn max_content(cx: &Cx) -> usize {
 }
 
 pub fn run_c16(cx: &Cx) -> PropResult {
-    let per_shard = cx.n(700, 12_000);
+    let per_shard = cx.n(2_000, 30_000);
     let max = max_content(cx);
     let acc = parallel(cx, &|shard, acc| {
         let strat = zcase_strategy(max);
